@@ -23,7 +23,9 @@
  *       (R and X do not advance the clock: the deadline of the attempt cannot pass meanwhile)
  *       R<k><n> deliver n (default 1) copies of a reply of kind k on the connection of the last
  *              transmission: a answer, x nxdomain, s servfail, n notimp, r refused, c truncated,
- *              f formerr without OPT, F formerr with OPT, b badcookie, z 0-byte datagram
+ *              f formerr without OPT, F formerr with OPT, b badcookie, z 0-byte datagram,
+ *              g 5 bytes of garbage, G a reply cut to 14 bytes (neither parses)
+ *       B<kinds> one message per letter queued on that connection, then ONE read (e.g. Bsg)
  *       X      read error (ECONNRESET) on the connection of the last transmission
  *       o<n>   the next n socket opens fail        w<n>  the next n sends fail (ECONNREFUSED)
  *       S<n>   replace the server list by n servers
@@ -490,7 +492,15 @@ static void inject(int fd, char kind, int copies)
   int           i;
   if (fd < FD0 || fd >= FD0 + nfd) return;
   v = &vs[fd - FD0];
-  n = (kind == 'z') ? 0 : build_reply(v, kind, msg);
+  if (kind == 'g') {            /* 5 bytes: not even a DNS header */
+    memcpy(msg, "\x12\x34\x81\x80\x00", 5);
+    n = 5;
+  } else if (kind == 'G') {     /* a reply to the last query cut in the middle of the question */
+    n = build_reply(v, 'a', msg);
+    if (n > 14) n = 14;
+  } else {
+    n = (kind == 'z') ? 0 : build_reply(v, kind, msg);
+  }
   if (kind != 'z' && n == 0) { OUT("E noreply"); return; }
   for (i = 0; i < copies; i++) {
     v->rx = realloc(v->rx, v->rxlen + n + 2);
@@ -580,6 +590,15 @@ static void case_retry(char *args)
       if (lastfd >= FD0 && !vs[lastfd - FD0].closed) {
         inject(lastfd, a[1], copies);
         ares_process_fd(ch, lastfd, ARES_SOCKET_BAD);
+      }
+    } else if (a[0] == 'B') {
+      /* several messages of the given kinds queued on the connection, ONE read */
+      const char *p;
+      OUT("E batch %s %d", a + 1, (lastfd >= FD0) ? vs[lastfd - FD0].tcp : -1);
+      if (lastfd >= FD0 && !vs[lastfd - FD0].closed) {
+        int fd = lastfd;
+        for (p = a + 1; *p; p++) inject(fd, *p, 1);
+        ares_process_fd(ch, fd, ARES_SOCKET_BAD);
       }
     } else if (a[0] == 'X') {
       OUT("E connerr %d", (lastfd >= FD0) ? vs[lastfd - FD0].tcp : -1);
